@@ -313,6 +313,9 @@ class Job:
         # This is true if we fetched the result from the cache.
         self.was_cached: bool = False
 
+        # This is true while the job holds the resource units given by `get_limits()`.
+        self.limits_held: bool = False
+
         # Hash of the CallNode associated with running this job. This hash requires knowledge
         # of the Job's result, hence is available after either computing or retrieving the result.
         self.call_hash: Optional[str] = None
@@ -1763,6 +1766,7 @@ class Scheduler:
                 self._add_job_pending_limits(job, eval_args)
                 return
             self._consume_resources(job_limits)
+            job.limits_held = True
 
         # Record that the job is actually starting.
         if job.recording_provenance():
@@ -1840,8 +1844,10 @@ class Scheduler:
         # Ensure we are on main scheduler thread.
         assert self.thread_id == threading.get_ident()
 
+        # Only jobs that consumed resources return them, and they do so exactly once.
         # Cached jobs won't have used any resources.
-        if not job.was_cached:
+        if job.limits_held:
+            job.limits_held = False
             self._release_resources(job.get_limits())
             self._check_jobs_pending_limits()
 
@@ -2069,8 +2075,11 @@ class Scheduler:
                 )
             )
 
-            # Cached jobs won't have used any resources.
-            if not job.was_cached:
+            # Only jobs that still hold resources return them. Cached jobs, jobs rejected
+            # before consuming (e.g. during a dryrun) and jobs that already released their
+            # resources in `_done_job_main_thread` hold none.
+            if job.limits_held:
+                job.limits_held = False
                 self._release_resources(job.get_limits())
                 self._check_jobs_pending_limits()
 
